@@ -39,6 +39,12 @@ CHECKS = {
  "C10": ("metamorphic testing (sub-slice equivalence, outside-byte rewriting, containment, empty-range) with adversarial boundary completion",
          "Exploration: R1 span == shifted sub-slice, R2 outside bytes irrelevant (incl. content that would complete a match across the boundary), R3 containment, R4 start=end+1, for all engines/prefilter shapes and packed::Searcher::find_in.",
          "Trusted: determinism of searches; reference model for the cross-check.", "DESIGN.md §4 C10"),
+ "C06": ("property-based testing of packed searchers against the reference model with variant forcing (Rabin-Karp / slim128 / slim256 / fat256 x mask 1-4) + deterministic length/offset sweep",
+         "Exploration: every algorithm variant available on the CPU is forced through the hidden Config knobs; find_in/find/find_iter are compared with the model's leftmost-first/-longest definitions on colliding pattern families, planted matches at every offset 0..90 and spans; a deterministic sweep enumerates every haystack length 0..72 x every plant offset for 4 colliding families x 4 mask lengths x 5 variants x 2 kinds.",
+         "Trusted: reference model; only x86-64 SSSE3/AVX2 vector code is exercised.", "DESIGN.md §4 C06"),
+ "C15": ("property-based testing in child processes with guard-page-backed haystacks (fault injection by memory protection); post-conditions on every match",
+         "Exploration: haystacks are placed flush against PROT_NONE pages on either side in 16 child processes; any access outside the slice kills the child and the breadcrumb case becomes the replay; panics are caught; matches must satisfy start <= end <= len, pattern < patterns_len, inside span.",
+         "Trusted: the kernel's page protection; does not see over-reads of pattern storage (ASan fuzzing in the thorough tier does).", "DESIGN.md §4 C15"),
 }
 
 NOT_YET = {}
